@@ -89,7 +89,7 @@ PROFILES.update({
                    p_nodelay_false=0.03)),
             (1, _p(world="mem", kinds=["fifo_bo", "hb_stopping_bo", "hb_promotion_bo", "hb_hypertune", "sync_hb_bo"], max_trials=8,
                    p_fault_free=0.7, fault_kinds=["crash"], p_nodelay_false=0.0)), ],
-    "C15": [(6, _p(world="mem", kinds=[k for k in MF if k != "fifo_grid"] + ["hb_stopping", "hb_promotion"], p_fault_free=0.6, p_ties=0.0,
+    "C15": [(6, _p(world="mem", kinds=[k for k in MF if k != "fifo_grid"] + ["hb_stopping", "hb_promotion", "hb_pasha", "hb_pasha"], p_fault_free=0.6, p_ties=0.0,
                    fault_kinds=["crash"], p_nodelay_false=0.03, stop_fields=["max_num_trials_started", "max_num_trials_finished",
                                                                             "max_num_trials_completed", "max_num_evaluations", "max_wallclock_time"])),
             (2, _p(world="sim", kinds=[k for k in MF_SIM if k != "fifo_grid"], p_fault_free=0.7, fault_kinds=["crash"], p_ties=0.0,
